@@ -36,6 +36,10 @@ type Program struct {
 
 	funcDecls map[*types.Func]*ast.FuncDecl
 	declPkg   map[*ast.FuncDecl]*packages.Package
+	hidden    map[*ast.FuncDecl]bool // helpers that were inlined into all of their callers
+
+	// InlinedHelpers lists the functions (absent from the baseline inventory) that were inlined.
+	InlinedHelpers []string
 
 	ssaOnce sync.Once
 	SSAProg *ssa.Program
@@ -56,6 +60,9 @@ type LoadOptions struct {
 	Tags   string
 	GOARCH string
 	Deep   bool // load syntax of dependencies too (whole-program SSA)
+	// Baseline is the function inventory of the pinned tree; functions outside it are inlined
+	// into their callers before analysis (nil: no inlining).
+	Baseline map[string]bool
 }
 
 // Load type-checks every package of the repository. Any load or type error is returned.
@@ -77,6 +84,7 @@ func Load(repo string, opt LoadOptions) (*Program, error) {
 	p := &Program{
 		Repo: repo, Fset: cfg.Fset, ByPath: map[string]*packages.Package{},
 		funcDecls: map[*types.Func]*ast.FuncDecl{}, declPkg: map[*ast.FuncDecl]*packages.Package{},
+		hidden: map[*ast.FuncDecl]bool{},
 	}
 	p.Config = fmt.Sprintf("GOARCH=%s tags=%q", firstNonEmpty(opt.GOARCH, "default"), opt.Tags)
 	var errs []string
@@ -122,6 +130,9 @@ func Load(repo string, opt LoadOptions) (*Program, error) {
 				}
 			}
 		}
+	}
+	if opt.Baseline != nil {
+		p.InlineNewHelpers(opt.Baseline)
 	}
 	return p, nil
 }
@@ -211,8 +222,20 @@ func (p *Program) Named(pkgPath, name string) *types.Named {
 	return n
 }
 
-// AllFuncDecls iterates over all function declarations of a package in source order.
+// AllFuncDecls iterates over the function declarations of a package in source order, without
+// the helpers that were inlined into all of their callers.
 func (p *Program) AllFuncDecls(pkg *packages.Package) []*ast.FuncDecl {
+	var out []*ast.FuncDecl
+	for _, fd := range p.AllFuncDeclsRaw(pkg) {
+		if !p.hidden[fd] {
+			out = append(out, fd)
+		}
+	}
+	return out
+}
+
+// AllFuncDeclsRaw lists every function declaration with a body.
+func (p *Program) AllFuncDeclsRaw(pkg *packages.Package) []*ast.FuncDecl {
 	var out []*ast.FuncDecl
 	for _, f := range pkg.Syntax {
 		for _, d := range f.Decls {
